@@ -45,7 +45,7 @@ SetOf(seq) == {seq[i] : i \in 1..Len(seq)}
 
 VARIABLES clock,
           msgs,     \* Seq of datagram contents; a datagram's identity is its position
-          pend,     \* pend[n]  : function  addr -> [ready, idx, tries, hs1, queue, due, blocked]
+          pend,     \* pend[n]  : function  addr -> [ready, idx, tries, hs1, queue, due]
                     \* queue: Seq(BOOLEAN), one flag per queued inside packet: will the outbound firewall allow it?
           tuns,     \* tuns[n]  : function  lidx -> tunnel record
           hosts,    \* hosts[n] : function  addr -> Seq(lidx), primary first
@@ -54,9 +54,16 @@ VARIABLES clock,
           sends,    \* exploration bound on TunSend
           timers,   \* timers[n] : function addr -> Seq(due time): entries of the outbound handshake timer wheel
                     \* (keyed by overlay address only, as in the code: an entry outlives the pending handshake that added it)
-          early     \* history: some retransmission happened before the pending handshake's own back-off delay had passed
+          early,    \* history: some retransmission happened before the pending handshake's own back-off delay had passed
+          bad       \* bad[n] : function addr -> set of underlay addresses blocked in the remote list of addr
+                    \* (RemoteList.badRemotes: the list lives in the lighthouse cache, so it OUTLIVES the pending handshake that
+                    \* blocked an address -- a later handshake for the same address still skips it -- until a handshake with
+                    \* that address completes: RefreshFromHandshake)
 
-vars == <<clock, msgs, pend, tuns, hosts, out, tunout, sends, timers, early>>
+vars == <<clock, msgs, pend, tuns, hosts, out, tunout, sends, timers, early, bad>>
+
+Bad(n, a) == IF a \in DOMAIN bad[n] THEN bad[n][a] ELSE {}
+SetBad(n, a, S) == bad' = [bad EXCEPT ![n] = [b \in (DOMAIN bad[n] \cup {a}) |-> IF b = a THEN S ELSE bad[n][b]]]
 
 -----------------------------------------------------------------------------
 (* helpers *)
@@ -102,6 +109,7 @@ Init == /\ clock = 0
         /\ hosts = [n \in Nodes |-> [a \in {} |-> <<>>]]
         /\ out = <<>> /\ tunout = 0 /\ sends = 0
         /\ timers = [n \in Nodes |-> [a \in {} |-> <<>>]] /\ early = FALSE
+        /\ bad = [n \in Nodes |-> [a \in {} |-> {}]]
 
 (* ---- the outbound handshake timer fired for address a: handleOutbound(a, false) ---- *)
 \* One firing as a function on s = [pd, tm, ms, em, early]: pd = pend[n], tm = timer entries of a,
@@ -116,7 +124,7 @@ Fire(n, a, s, i) ==
         THEN [s EXCEPT !.pd = [b \in DOMAIN s.pd \ {a} |-> s.pd[b]]]
         ELSE LET fresh == ~p.ready
                  id    == IF fresh THEN Len(s.ms) + 1 ELSE p.hs1
-                 dsts  == SelectSeq(Route[n][a], LAMBDA d : d \notin p.blocked)
+                 dsts  == SelectSeq(Route[n][a], LAMBDA d : d \notin Bad(n, a))
                  np    == [p EXCEPT !.ready = TRUE, !.idx = IF fresh THEN i ELSE p.idx, !.tries = p.tries + 1,
                                     !.hs1 = id, !.due = clock + (p.tries + 1)]
              IN [pd |-> [s.pd EXCEPT ![a] = np],
@@ -137,13 +145,13 @@ DueCount(tm) == Cardinality({j \in 1..Len(tm) : tm[j] <= clock})
 TimersOf(n, a) == IF a \in DOMAIN timers[n] THEN timers[n][a] ELSE <<>>
 SetTimer(n, a, tm) == timers' = [timers EXCEPT ![n] = [b \in (DOMAIN timers[n] \cup {a}) |-> IF b = a THEN tm ELSE timers[n][b]]]
 
-NewPending(q) == [ready |-> FALSE, idx |-> 0, tries |-> 0, hs1 |-> 0, queue |-> q, due |-> 0, blocked |-> {}]
+NewPending(q) == [ready |-> FALSE, idx |-> 0, tries |-> 0, hs1 |-> 0, queue |-> q, due |-> 0]
 
 \* inside packet for a: send on the primary tunnel, or queue behind the pending handshake, or start one
 TunSend(n, a, ok) ==
     /\ sends < MaxTunSends /\ sends' = sends + 1
     /\ a \notin Own[n]
-    /\ tunout' = 0 /\ UNCHANGED early
+    /\ tunout' = 0 /\ UNCHANGED <<early, bad>>
     /\ IF a \in DOMAIN hosts[n] /\ ~ok
          THEN NoEmit /\ UNCHANGED <<msgs, pend, tuns, hosts, clock, timers>>      \* outbound firewall drops it
        ELSE IF a \in DOMAIN hosts[n]
@@ -161,7 +169,8 @@ TunSend(n, a, ok) ==
                       /\ msgs' = Append(msgs, Hs1(n, i, clock))
                       /\ pend' = [pend EXCEPT ![n] = @ @@ (a :> [p EXCEPT !.ready = TRUE, !.idx = i, !.tries = 1,
                                                                           !.hs1 = Len(msgs) + 1, !.due = clock + 1])]
-                      /\ Emit([k \in 1..Len(Route[n][a]) |-> [id |-> Len(msgs) + 1, to |-> Route[n][a][k]]])
+                      /\ LET dsts == SelectSeq(Route[n][a], LAMBDA d : d \notin Bad(n, a)) IN
+                         Emit([k \in 1..Len(dsts) |-> [id |-> Len(msgs) + 1, to |-> dsts[k]]])
                    /\ SetTimer(n, a, Append(TimersOf(n, a), clock + 1))
                    /\ UNCHANGED <<tuns, hosts, clock>>
 
@@ -178,7 +187,7 @@ Retry(n, a, k) ==
              /\ msgs' = s.ms
              /\ Emit(s.em)
              /\ early' = s.early
-    /\ UNCHANGED <<tuns, hosts, clock, sends>>
+    /\ UNCHANGED <<tuns, hosts, clock, sends, bad>>
 
 (* ---- stage 1 received: beginHandshake ---- *)
 RecvHs1(n, id, via) ==
@@ -191,23 +200,23 @@ RecvHs1(n, id, via) ==
     /\ tunout' = 0
     /\ UNCHANGED <<clock, sends, timers, early>>
     /\ IF c \notin Trusts[n] \/ SetOf(va) \cap Own[n] # {}
-         THEN NoEmit /\ UNCHANGED <<msgs, tuns, hosts, pend>>      \* certificate refused / "myself"
+         THEN NoEmit /\ UNCHANGED <<msgs, tuns, hosts, pend, bad>>      \* certificate refused / "myself"
        ELSE IF first \in DOMAIN hosts[n] /\ \E k \in 1..Len(hosts[n][first]) : tuns[n][hosts[n][first][k]].hs1 = id
          THEN \* ErrAlreadySeen: only the cached reply is resent
               LET k == CHOOSE k \in 1..Len(hosts[n][first]) : tuns[n][hosts[n][first][k]].hs1 = id
                   t == tuns[n][hosts[n][first][k]]
               IN /\ Emit(IF t.hs2 # 0 THEN <<[id |-> t.hs2, to |-> via]>> ELSE <<>>)
-                 /\ UNCHANGED <<msgs, tuns, hosts, pend>>
+                 /\ UNCHANGED <<msgs, tuns, hosts, pend, bad>>
        ELSE IF first \in DOMAIN hosts[n] /\ tuns[n][Primary(n, first)].hsTime >= m.time /\ ~tuns[n][Primary(n, first)].init
          THEN \* ErrExistingHostInfo ("handshake too old"): a test request goes out on the existing primary
               LET t == tuns[n][Primary(n, first)] IN
               /\ msgs' = Append(msgs, Ctl("test", n, t.ridx, t.key, t.tx + 1))
               /\ tuns' = [tuns EXCEPT ![n][t.lidx].tx = t.tx + 1]
               /\ Emit(<<[id |-> Len(msgs) + 1, to |-> t.remote]>>)
-              /\ UNCHANGED <<hosts, pend>>
+              /\ UNCHANGED <<hosts, pend, bad>>
        ELSE \E i \in Idx :
               IF i \in MainIdx(n) \cup PendIdx(n)
-                THEN NoEmit /\ UNCHANGED <<msgs, tuns, hosts, pend>>     \* ErrLocalIndexCollision: handshake dropped
+                THEN NoEmit /\ UNCHANGED <<msgs, tuns, hosts, pend, bad>>     \* ErrLocalIndexCollision: handshake dropped
                 ELSE LET rid == Len(msgs) + 1
                          t == [lidx |-> i, ridx |-> m.initIdx, addrs |-> va, peer |-> c, init |-> FALSE,
                                hsTime |-> m.time, hs1 |-> id, hs2 |-> rid, key |-> <<id, rid>>, remote |-> via,
@@ -219,7 +228,7 @@ RecvHs1(n, id, via) ==
                         /\ Emit(<<[id |-> rid, to |-> via]>>)
                         \* RefreshFromHandshake: the remote list of the peer's first address forgets its blocked
                         \* underlay addresses; a pending handshake for that address shares the list
-                        /\ pend' = IF first \in DOMAIN pend[n] THEN [pend EXCEPT ![n][first].blocked = {}] ELSE pend
+                        /\ SetBad(n, first, {}) /\ UNCHANGED pend
 
 (* ---- stage 2 received: continueHandshake ---- *)
 \* late: inside packets (outbound-firewall flags) for the same address that the inside reader handles WHILE
@@ -235,22 +244,23 @@ RecvHs2(n, id, via, late) ==
     /\ (late # <<>> => \E a \in DOMAIN pend[n] : /\ pend[n][a].ready /\ pend[n][a].idx = m.initIdx /\ m.sess = pend[n][a].hs1
                                                 /\ c \in Trusts[n] /\ SetOf(m.cert) \cap Own[n] = {} /\ a \in SetOf(m.cert))
     /\ IF ~(\E a \in DOMAIN pend[n] : pend[n][a].ready /\ pend[n][a].idx = m.initIdx)
-         THEN NoEmit /\ tunout' = 0 /\ UNCHANGED <<msgs, pend, tuns, hosts, timers>>      \* no pending handshake: orphan
+         THEN NoEmit /\ tunout' = 0 /\ UNCHANGED <<msgs, pend, tuns, hosts, timers, bad>>      \* no pending handshake: orphan
          ELSE LET a == CHOOSE a \in DOMAIN pend[n] : pend[n][a].ready /\ pend[n][a].idx = m.initIdx
                   p == pend[n][a]
                   without == [b \in DOMAIN pend[n] \ {a} |-> pend[n][b]]
               IN
               IF m.sess # p.hs1
-                THEN NoEmit /\ tunout' = 0 /\ UNCHANGED <<msgs, pend, tuns, hosts, timers>>  \* not the answer to our stage 1: rejected, nothing changes
+                THEN NoEmit /\ tunout' = 0 /\ UNCHANGED <<msgs, pend, tuns, hosts, timers, bad>>  \* not the answer to our stage 1: rejected, nothing changes
               ELSE IF c \notin Trusts[n] \/ SetOf(m.cert) \cap Own[n] # {}
                 THEN \* invalid certificate / "myself": the handshake is abandoned
                      /\ pend' = [pend EXCEPT ![n] = without]
-                     /\ NoEmit /\ tunout' = 0 /\ UNCHANGED <<msgs, tuns, hosts, timers>>
+                     /\ NoEmit /\ tunout' = 0 /\ UNCHANGED <<msgs, tuns, hosts, timers, bad>>
               ELSE IF a \notin SetOf(m.cert)
                 THEN \* wrong host answered: close towards it, block that underlay address, start over with the queue
                      LET key == <<p.hs1, id>>
-                         np  == [NewPending(p.queue) EXCEPT !.blocked = p.blocked \cup {via}]
-                         dsts == SelectSeq(Route[n][a], LAMBDA d : d \notin np.blocked)
+                         np  == NewPending(p.queue)
+                         nbad == Bad(n, a) \cup {via}
+                         dsts == SelectSeq(Route[n][a], LAMBDA d : d \notin nbad)
                      IN \E i \in Idx \ (MainIdx(n) \cup (PendIdx(n) \ {p.idx})) :
                         /\ tunout' = 0
                         /\ IF dsts # <<>>
@@ -263,6 +273,7 @@ RecvHs2(n, id, via, late) ==
                                   /\ pend' = [pend EXCEPT ![n] = without @@ (a :> [np EXCEPT !.due = clock + 1])]
                                   /\ Emit(<<[id |-> Len(msgs) + 1, to |-> via]>>)
                         /\ SetTimer(n, a, Append(TimersOf(n, a), clock + 1))   \* StartHandshake arms a new entry; the old one stays
+                        /\ SetBad(n, a, nbad)
                         /\ UNCHANGED <<tuns, hosts>>
               ELSE \* Complete: the pending entry becomes a tunnel, queued packets are released in order
                    LET key == <<p.hs1, id>>
@@ -278,6 +289,7 @@ RecvHs2(n, id, via, late) ==
                       /\ msgs' = msgs \o [k \in 1..nAllowed |-> Data(n, m.respIdx, key, 2 + k)]
                       /\ Emit([k \in 1..nAllowed |-> [id |-> Len(msgs) + k, to |-> via]])
                       /\ tunout' = 0 /\ UNCHANGED timers
+                      /\ SetBad(n, a, {})                                        \* RefreshFromHandshake
 
 (* ---- data / test / close received ---- *)
 \* handleHostRoaming: an authenticated packet from another underlay address moves the tunnel there, unless it is a
@@ -290,7 +302,7 @@ Roamed(t, via) == IF via = t.remote THEN t
 RecvData(n, id, via) ==
     LET m == msgs[id] IN
     /\ m.kind \in {"data", "test", "testreply", "close"}
-    /\ UNCHANGED <<clock, pend, sends, timers, early>>
+    /\ UNCHANGED <<clock, pend, sends, timers, early, bad>>
     /\ IF m.respIdx \in DOMAIN tuns[n] /\ tuns[n][m.respIdx].key = m.key /\ tuns[n][m.respIdx].peer = m.src
           /\ m.ctr \notin tuns[n][m.respIdx].rx
          THEN LET t == [Roamed(tuns[n][m.respIdx], via) EXCEPT !.rx = @ \cup {m.ctr}] IN
@@ -316,7 +328,7 @@ RecvData(n, id, via) ==
 Tick == /\ clock < MaxClock
         /\ clock' = clock + 1
         /\ NoEmit /\ tunout' = 0
-        /\ UNCHANGED <<msgs, pend, tuns, hosts, sends, timers, early>>
+        /\ UNCHANGED <<msgs, pend, tuns, hosts, sends, timers, early, bad>>
 
 Deliver == \E n \in Nodes, id \in 1..Len(msgs) : \E via \in Nodes \ {n} :
               RecvHs1(n, id, via) \/ RecvHs2(n, id, via, <<>>) \/ RecvData(n, id, via)
